@@ -911,7 +911,7 @@ def fault_tasks(quick):
 
 def race_tasks(quick):
     tasks = []
-    reps = 2 if quick else 20
+    reps = 2 if quick else 30
     for n in range(2, 9):
         for state in STATES:
             for kind, stagger in (("plain", 0), ("big", 0), ("big", 1)) if not quick else (("plain", 0), ("big", n % 2)):
@@ -925,7 +925,7 @@ def run(ctx):
     if part in (None, "ii"):
         ctx.pmap(shard_faults, fault_tasks(ctx.quick))
     if part in (None, "i"):
-        n = ctx.pick(150, 2500)
+        n = ctx.pick(150, 4000)
         ctx.pmap(shard_histories, [(ctx.shard_seed(i, "i"), n, i < 2) for i in range(16)])
     if part in (None, "iii"):
         ctx.pmap(shard_races, race_tasks(ctx.quick))
